@@ -40,8 +40,8 @@ def bpsAfter (env : Env) (fuel : Nat) (loaded : Machine) (w : World) (bps0 : Lis
 last `┘` (nothing when there is no table). The heading line and the "no breakpoints" notice —
 wording, category symbol — are free text that no property specifies. -/
 def cutTable (cs : List Char) : List Char :=
-  let rest := cs.dropWhile (· != '┌')
-  (rest.reverse.dropWhile (· != '┘')).reverse
+  let rest := cs.dropWhile (fun c => !"┌╭┏╔".toList.contains c)
+  (rest.reverse.dropWhile (fun c => !"┘╯┛╝".toList.contains c)).reverse
 
 def showTables (ts : List String) : String := if ts.isEmpty then "-" else ",".intercalate ts
 
